@@ -89,6 +89,12 @@ func (v *Vue) renderNodesWithContext(ctx VueContext, w io.Writer, nodes []*html.
 		nodeCopy = append(nodeCopy, helpers.DeepCloneNode(nodes[i]))
 	}
 
+	// Assign IDs to all v-once elements for tracking across deep clones. This is done on the
+	// copy: the parsed nodes may be cached and shared with concurrent renders.
+	for _, node := range nodeCopy {
+		assignSeenAttrs(&ctx, node)
+	}
+
 	if err := v.preProcessNodes(ctx, nodeCopy); err != nil {
 		return err
 	}
@@ -150,11 +156,6 @@ func (v *Vue) Render(w io.Writer, filename string, data any) error {
 		Stack:      NewStackWithData(dataMap, data),
 		Processors: v.nodeProcessors,
 	})
-
-	// Assign unique IDs to all v-once elements for tracking across deep clones
-	for _, node := range dom {
-		assignSeenAttrs(&vueCtx, node)
-	}
 
 	// Use renderNodesWithContext with pre-configured context
 	return v.renderNodesWithContext(vueCtx, w, dom)
@@ -240,11 +241,6 @@ func (v *Vue) RenderFragment(w io.Writer, filename string, data any) error {
 		Stack:      NewStackWithData(dataMap, data),
 		Processors: v.nodeProcessors,
 	})
-
-	// Assign unique IDs to all v-once elements for tracking across deep clones
-	for _, node := range dom {
-		assignSeenAttrs(&vueCtx, node)
-	}
 
 	// Use RenderNodes with pre-configured context
 	return v.renderNodesWithContext(vueCtx, w, dom)
